@@ -353,6 +353,11 @@ func ccWaitersCase(c *mon.Case) {
 				v := (j+1)*1000 + k + 1
 				if k == setEmptyAt {
 					v = 0
+					if custom && (j+k)%2 == 0 {
+						// a value that is not the zero value but that the container's comparison treats as equal to it
+						v = j + 1
+						c.Count("writes_equal_to_empty_under_custom_equality", 1)
+					}
 				}
 				if (j*5+k)%7 == 6 {
 					// a SwapValue callback that panics (the caller recovers): the cell keeps its content and stays usable
